@@ -236,10 +236,20 @@ func nilFuncOption(p Pat) mux.Option {
 }
 
 func build(ns string, ps []Pat, rec *recorder) (m *mux.ServeMux, panicked string) {
+	return buildFn(ns, ps, rec, false)
+}
+
+// buildFn registers through the Func variants of the options (the adapters of mux/stanza.go)
+// when fn is set.
+func buildFn(ns string, ps []Pat, rec *recorder, fn bool) (m *mux.ServeMux, panicked string) {
 	panicked = common.Recover(func() {
 		opts := make([]mux.Option, len(ps))
 		for i, p := range ps {
-			opts[i] = option(p, rec, false)
+			if fn {
+				opts[i] = funcOption(p, rec, 0)
+			} else {
+				opts[i] = option(p, rec, false)
+			}
 		}
 		m = mux.New(ns, opts...)
 	})
@@ -281,7 +291,10 @@ func best(ps []Pat, kind, typ string, n xml.Name) *Pat {
 	return b
 }
 
-type ctx struct{ r *common.Run }
+type ctx struct {
+	r    *common.Run
+	nerr int
+}
 
 func (c *ctx) lookup(ps []Pat, kind, typ string, n xml.Name, class string) {
 	r := c.r
@@ -402,6 +415,25 @@ func (c *ctx) children(ps []Pat, stanzaXML string, cons []int, class string) {
 	c.dispatch(ps, stanzaXML, cons, nil, "session", class)
 	c.dispatch(ps, stanzaXML, cons, nil, "sep", class)
 	c.dispatch(ps, stanzaXML, cons, nil, "eof", class)
+	// some of the invoked handlers fail: every later child is still dispatched, the failed
+	// calls are reported
+	c.nerr++
+	var errs []int
+	switch c.nerr % 4 {
+	case 0:
+		errs = []int{0}
+	case 1:
+		errs = []int{1}
+	case 2:
+		errs = []int{0, 2, 3}
+	default:
+		for k := 0; k < len(cons) && k < 40; k++ {
+			if (c.nerr/4+k)%3 == 0 {
+				errs = append(errs, k)
+			}
+		}
+	}
+	c.dispatch(ps, stanzaXML, cons, errs, []string{"sep", "eof"}[(c.nerr/2)%2], class+"-errs")
 }
 
 // dispatch sends one message / presence stanza to the multiplexer and compares which handlers
@@ -438,7 +470,8 @@ func (c *ctx) dispatch(ps []Pat, stanzaXML string, cons []int, errs []int, mode 
 	for _, e := range errs {
 		rec.errs[e] = true
 	}
-	m, p := build(ns, ps, rec)
+	// the direct runs over a "sep" reader register through the Func variants of the options
+	m, p := buildFn(ns, ps, rec, mode == "sep")
 	if p != "" {
 		r.Line(line, "BUILD-PANIC")
 		return
